@@ -205,8 +205,9 @@ class FakeResponse:
             data = body[: int(len(body) * outcome["fraction"])]
         elif outcome["kind"] == "corrupt":
             data = bytes((b ^ 0x5A) for b in body[: max(1, len(body))])
-        self.data = data if self.status == 200 else b"error"
-        if outcome.get("content_length", True) and self.status == 200:
+        # (any other status comes with a small HTML page of its own, announced with its length as servers and proxies do)
+        self.data = data if self.status == 200 else b"<html><body>" + str(self.status).encode() + b"</body></html>"
+        if outcome.get("content_length", True):
             declared = len(body) if outcome["kind"] in ("short", "protocol-error", "read-timeout") else len(self.data)
             self.headers["Content-Length"] = str(declared)
 
